@@ -65,6 +65,24 @@ def gen_history(rng, n, ng_heavy=False):
             v = rng.choice(['s1a_', 's1b_', 's1a_', 'zz'])
             h.append(['queryg', 'p', v] if k < 0.4 else ['startg', 'p', v] if k < 0.6 else ['step', rng.randrange(4)] if k < 0.9 else ['close', rng.randrange(4), 'close'])
         return h
+    if ng_heavy == 'many':
+        # very many queries suspended at once on this engine (per-process or per-thread counters, pools and caches
+        # sized for a handful of live generators)
+        h.append(['load', 0, True, True])
+        h.append(['maxtasks', 200])
+        m = rng.choice((70, 125, 130))
+        for i in range(m):
+            h.append(['start', rng.choice(['p', 'p', 'f'])] if i % 3 else ['startg', 'p', rng.choice(['s1a_', 's1b_'])])
+        for _ in range(n // 2):
+            h.append(['step', rng.randrange(m)] if rng.random() < 0.7 else ['query', 'p'])
+        return h
+    if ng_heavy == 'wide':
+        # facts and goals with 13 arguments, several of them suspended and stepped alternately
+        for _ in range(n):
+            k = rng.random()
+            h.append(['assertwide', rng.choice('ab')] if k < 0.3 else ['startwide', rng.random() < 0.5] if k < 0.55 else ['step', rng.randrange(4)] if k < 0.9
+                     else ['close', rng.randrange(4), rng.choice(['close', 'drop'])])
+        return h
     if ng_heavy == 'reg':
         # registration-heavy: natives made on the spot come and go (re-registration, clear) in every engine
         for _ in range(n):
@@ -158,7 +176,7 @@ def gen(seed, tier):
         steps = [[rng.randrange(ntasks), rng.choice(['next'] * 8 + ['close', 'drop'])] for _ in range(rng.randrange(4, 40))]
         return {'mode': mode, 'world': world, 'dynfacts': dyn, 'tasks': tasks, 'steps': steps}
     ne = rng.choice((2, 2, 3) if tier != 'thorough' else (2, 3, 3, 4))
-    ng_heavy = rng.choice((False, False, False, False, True, True, 'ground', 'reg'))
+    ng_heavy = rng.choice((False, False, False, False, True, True, 'ground', 'reg', 'many', 'wide'))
     hs = [gen_history(rng, rng.randrange(5, 26 * (2 if tier == 'thorough' else 1)), ng_heavy) for _ in range(ne)]
     return {'mode': mode, 'histories': hs, 'sched_seed': rng.randrange(1 << 30), 'switch_p': rng.choice((0.005, 0.02, 0.05, 0.2)), 'schedule': None}
 
@@ -180,6 +198,7 @@ class EngineRun:
         self.atoms = {}
         self.tag = tag
         self.nreg = 0
+        self.max_tasks = 4
 
     def done(self):
         return self.pc >= len(self.hist)
@@ -201,6 +220,19 @@ class EngineRun:
         from yldprolog.compiler import compile_prolog_from_string
         yp = self.yp
         kind = op[0]
+        if kind == 'assertwide':
+            yp.assert_fact(yp.atom('wz'), [yp.atom(op[1] + self.tag)] + [yp.atom('m%d' % j) for j in range(11)] + [yp.atom('z' + op[1] + self.tag)])
+            return None
+        if kind == 'startwide':
+            if len(self.tasks) >= self.max_tasks:
+                return 'noop'
+            x, y = yp.variable(), yp.variable()
+            args = [x] + ([yp.variable() for _ in range(11)] if op[1] else [yp.atom('m%d' % j) for j in range(11)]) + [y]
+            self.tasks.append([GenTask(yp.query('wz', args)), yp.functor('pair', [x, y])])
+            return None
+        if kind == 'maxtasks':
+            self.max_tasks = op[1]
+            return None
         if kind == 'load':
             # (no stderr redirection here: that would be process-global state introduced by the harness)
             # half of the loads use the very same text in every engine (a cache keyed by text would be shared)
@@ -229,7 +261,7 @@ class EngineRun:
         if kind == 'queryg':
             return sum(1 for _ in yp.query(op[1], [yp.atom(op[2] + self.tag)]))
         if kind == 'startg':
-            if len(self.tasks) >= 4:
+            if len(self.tasks) >= self.max_tasks:
                 return 'noop'
             self.tasks.append([GenTask(yp.query(op[1], [yp.atom(op[2] + self.tag)])), yp.atom(op[2] + self.tag)])
             return None
@@ -281,7 +313,7 @@ class EngineRun:
             same = self.atoms.setdefault(op[1], a) is a
             return [same, a.name()]
         if kind == 'start':
-            if len(self.tasks) >= 4:
+            if len(self.tasks) >= self.max_tasks:
                 return 'noop'
             x = yp.variable()
             self.tasks.append([GenTask(yp.query(op[1], [x])), x])
@@ -313,9 +345,16 @@ class EngineRun:
         return 'unknown-op'
 
     def finish(self):
+        """the consumer closes what is still suspended (in thread mode: from another thread than the one that ran
+        the history); what close() does is part of the observation"""
+        out = []
         for t in self.tasks:
-            t[0].close()
+            try:
+                t[0].close()
+            except Exception as e:
+                out.append('EXC:' + type(e).__name__)
         self.tasks = []
+        self.log.append(['finish', out])
 
 
 def _solo(args):
